@@ -415,3 +415,27 @@ func RetVals(ret *ssa.Return) []ssa.Value {
 	}
 	return out
 }
+
+// MakeLen returns the constant length of a slice created by make([]T, k)
+// (go/ssa lowers a constant-size make to `new [k]T` + slice).
+func MakeLen(v ssa.Value) (int64, bool) {
+	switch x := v.(type) {
+	case *ssa.MakeSlice:
+		return ConstInt64(x.Len)
+	case *ssa.Slice:
+		if x.Low != nil {
+			return 0, false
+		}
+		if al, ok := x.X.(*ssa.Alloc); ok {
+			if arr, ok := al.Type().Underlying().(*types.Pointer).Elem().Underlying().(*types.Array); ok {
+				if x.High == nil {
+					return arr.Len(), true
+				}
+				if h, ok := ConstInt64(x.High); ok && h <= arr.Len() {
+					return h, true
+				}
+			}
+		}
+	}
+	return 0, false
+}
